@@ -148,9 +148,10 @@ def gen_instances(seed, si, tier):
     """-> (schema, builder, validator, [[family, label, El, Result], ...]) ; deterministic in (seed, si, tier)"""
     r = core.rng(seed, PID, 'schema', si)
     # every eighth schema exercises two wildcards over one namespace (deterministic only through counting)
-    # ... every eighth an all group, every eighth an abstract substitution head (rare constructs must be present in every run)
+    # ... every eighth an all group, an abstract substitution head, a nillable root of mixed type (rare constructs must be present in every run)
     s = xg.gen_schema(r, {'twowild': True, 'content': 'elements', 'all': False} if si % 8 == 5 else {'all': True, 'content': 'elements', 'twowild': False} if si % 8 == 3
-                      else {'head': True, 'content': 'elements', 'twowild': False} if si % 8 == 1 else None)
+                      else {'head': True, 'content': 'elements', 'twowild': False} if si % 8 == 1
+                      else {'content': 'mixed', 'nillable': True, 'twowild': False} if si % 8 == 7 else None)
     bld = xg.Builder(s)
     val = xg.Validator(s)
     info = s.info
@@ -190,6 +191,11 @@ def gen_instances(seed, si, tier):
                     e = base.copy()
                     e.kids = [alpha[x].copy() for x in seq]
                     add('seq', '%s%s%s:%s' % (rname, '^' + xtype[1] if xtype else '', '^nil' if nil else '', ' '.join(seq)), e)
+            if nil:
+                for txt in ('txt', ' ', ('c', 'note')):
+                    e = base.copy()
+                    e.kids = [txt]
+                    add('seq', '%s^nil:text' % rname, e)
             # B: neighbours of random valid words
             if nil is None and not t.simple and t.content == 'elements' and t.particle is not None:
                 nwords = 5 if tier == 'quick' else 14
@@ -786,7 +792,10 @@ def stage_generated(ck, binary, tier, nproc, cov):
                             if single:
                                 confirmed.append((w, i, cfg, cls, sorted(set(x for v in bad.values() for x in v)), [x for v in posd.values() for x in v]))
                             else:
-                                recheck.append((w, i, cfg, cls))
+                                prior = set()
+                                for x in idx[:pos]:
+                                    prior.update(w['instances'][x][5])
+                                recheck.append((w, i, cfg, cls, c, (line, 'after-nil-false' if 'nil-false' in prior else 'plain')))
                             continue
                         fam[f_ + ('_valid' if exp == 'V' else '_invalid')] += 1
                         for ru in rules:
@@ -816,13 +825,13 @@ def stage_generated(ck, binary, tier, nproc, cov):
             if recheck:
                 rc = []
                 rmeta = {}
-                for n, (w, i, cfg, bcls) in enumerate(recheck):
+                for n, (w, i, cfg, bcls, bcase, bline) in enumerate(recheck):
                     cid = 'rc%d.s%d.i%d' % (n, w['si'], i)
                     rc.append(mk_case(cid, cfg, w['ents'], wrap_single(w['tns'], w['instances'][i][2]), dump=0))
-                    rmeta[cid] = (w, i, cfg, bcls)
+                    rmeta[cid] = (w, i, cfg, bcls, bcase, bline)
                 rrecs = core.run_cases(binary, rc, tag='c08r', shards=nproc)
                 for c in rc:
-                    w, i, cfg, bcls = rmeta[c.id]
+                    w, i, cfg, bcls, bcase, bline = rmeta[c.id]
                     f_, label, xml, rules, tree, feats = w['instances'][i]
                     rec = rrecs.get(c.id)
                     if rec is None or not rec.complete or rec.crash or rec.hang or not rec.steps():
@@ -834,9 +843,9 @@ def stage_generated(ck, binary, tier, nproc, cov):
                     cls = 'F' if (fatal is not None or st.status != 'ok') else 'E' if bad else 'V'
                     stats['batch_disagreements_rechecked'] += 1
                     if cls != bcls:
-                        ck.violation('C08:context-dependent:%s:%s' % ('+'.join(rules) or 'valid', explain(feats) or 'plain'),
+                        ck.violation('C08:context-dependent:%s:%s' % ('+'.join(rules) or 'valid', explain(feats) or bline[1]),
                                      'verdict class for the same element differs between stand-alone document and as a child of the wrapper (%s vs %s)' % (cls, bcls),
-                                     {'case': c.to_json(), 'instance': xml, 'schema': w['docs'][0][1].decode()})
+                                     {'case': bcase.to_json(), 'line_in_batch': bline[0], 'stand_alone_case': c.to_json(), 'instance': xml, 'schema': w['docs'][0][1].decode()})
                     if cls != ('E' if rules else 'V'):
                         confirmed.append((w, i, cfg, cls, sorted(set(x for v in bad.values() for x in v)), [x for v in posd.values() for x in v]))
             # name and report confirmed disagreements (one shrink per signature; members share the key)
